@@ -41,6 +41,9 @@ type c13Attempt struct {
 	Offset   int    `json:"offset"` // byte offset of the failure (body-error, gzip-truncated, timeout)
 	Assigned bool   `json:"assigned"`
 	Cut      int    `json:"cut"`
+	// During: an API call that is handled while this scrape is in flight (the target performs it
+	// before it answers): "" | setStop | clearStop | repost (the same targets list again)
+	During string `json:"during,omitempty"`
 }
 
 type c13Case struct {
@@ -72,7 +75,11 @@ func runC13(rec *vkit.Recorder, c *c13Case) []vkit.Violation {
 	dir, _ := ioutil.TempDir("", "c13-")
 	defer os.RemoveAll(dir)
 	var cur c13Attempt
+	var during func(kind string)
 	rt := rtFunc(func(r *http.Request) (*http.Response, error) {
+		if cur.During != "" && during != nil {
+			during(cur.During)
+		}
 		pl := c13Payload(cur.Lines)
 		h := http.Header{"Content-Type": []string{"text/plain"}}
 		switch cur.Kind {
@@ -127,6 +134,16 @@ func runC13(rec *vkit.Recorder, c *c13Case) []vkit.Violation {
 	if code, _ := n.post("/api/v1/shard/targets/", req); code != 200 {
 		return []vkit.Violation{{Key: "C13/harness", Msg: "update rejected"}}
 	}
+	during = func(kind string) {
+		switch kind {
+		case "setStop":
+			n.post("/api/v1/status/extra_config", &prom.ExtraConfig{StopScrapeReason: "stopped while a scrape was in flight"})
+		case "clearStop":
+			n.post("/api/v1/status/extra_config", &prom.ExtraConfig{StopScrapeReason: ""})
+		case "repost":
+			n.post("/api/v1/shard/targets/", req)
+		}
+	}
 	srv := httptest.NewServer(n.proxy)
 	defer srv.Close()
 	cli := &http.Client{Timeout: 5 * time.Second, Transport: &http.Transport{DisableKeepAlives: true, DisableCompression: true}}
@@ -163,6 +180,11 @@ func runC13(rec *vkit.Recorder, c *c13Case) []vkit.Violation {
 			}
 			stopped = wantStop
 		}
+		if a.During == "setStop" {
+			stopped = true
+		} else if a.During == "clearStop" {
+			stopped = false
+		}
 		before := status(hash)
 		u := proxyURL(job, hash, host, "/metrics", nil)
 		if a.Kind == "unknown-job" {
@@ -197,6 +219,30 @@ func runC13(rec *vkit.Recorder, c *c13Case) []vkit.Violation {
 			} else {
 				key += "/at-offset-0"
 			}
+		}
+		if a.During == "setStop" || a.During == "clearStop" {
+			// the stop reason changed while the scrape was in flight: either outcome is acceptable, but
+			// what Prometheus sees and what the status says must agree, and a 200 carries the whole body
+			after := status(hash)
+			key := "during-" + a.During
+			if !clientSawFailure && !bytes.Equal(body, pl) {
+				add("C13/complete-200-with-wrong-content/"+key, "attempt %d (%+v): status 200 and a clean body of %d bytes, payload has %d", i, a, len(body), len(pl))
+			}
+			if before != nil && after != nil && !(a.Kind == "unknown-job" || a.Kind == "bad-hash") {
+				up := string(after.Health) == "up" && after.LastError == ""
+				down := string(after.Health) == "down" && after.LastError != ""
+				if !clientSawFailure && a.Kind == "ok" && !up || clientSawFailure && !down {
+					add("C13/health-disagrees-with-response/"+key, "attempt %d (%+v): client saw failure=%v but status says health %q lastError %q", i, a, clientSawFailure, after.Health, after.LastError)
+				}
+				if after.ScrapeTimes != before.ScrapeTimes+1 {
+					add("C13/counter/"+key, "attempt %d: scrape counter went from %d to %d", i, before.ScrapeTimes, after.ScrapeTimes)
+				}
+			}
+			rec.Eval(true, vkit.Digest(a.Kind, a.Lines, a.Offset, a.Cut, a.Assigned, a.During), "kind/"+key)
+			if len(vs) > 0 {
+				break
+			}
+			continue
 		}
 		if failed && !clientSawFailure {
 			if bytes.Equal(body, pl) && (a.Kind == "body-error" || a.Kind == "body-reset" || a.Kind == "timeout") && a.Offset >= len(pl) {
@@ -239,6 +285,9 @@ func runC13(rec *vkit.Recorder, c *c13Case) []vkit.Violation {
 		}
 		nt := (a.Kind == "body-error" || a.Kind == "body-reset" || a.Kind == "gzip-truncated" || a.Kind == "timeout") && a.Offset > 0
 		cls := []string{"kind/" + key}
+		if a.During == "repost" {
+			cls = append(cls, "targets-reposted-while-in-flight")
+		}
 		if !a.Assigned {
 			cls = append(cls, "unassigned-target")
 		}
@@ -293,6 +342,18 @@ func genC13(t *rapid.T) *c13Case {
 		a.Cut = rapid.SampledFrom([]int{0, 0, 1, 100, 4096}).Draw(t, l+"-cut")
 		if a.Lines > 200 && a.Cut == 1 {
 			a.Cut = 100
+		}
+		switch rapid.IntRange(0, 9).Draw(t, l+"-during") {
+		case 0:
+			a.During = "repost"
+		case 1:
+			if a.Kind == "ok" || a.Kind == "body-error" || a.Kind == "status" {
+				a.During = "setStop"
+			}
+		case 2:
+			if a.Kind == "stop" {
+				a.During = "clearStop"
+			}
 		}
 		c.Attempts = append(c.Attempts, a)
 	}
